@@ -36,6 +36,8 @@ package routine
 //   W3  a retry timer is pending only for a record that exited with an error (a timer that fires late finds
 //       deferRetry changed and does nothing)
 //   execute$1 exit: the result fields are written only by the instance that is current for its record
+//   TE  the critical section in which the current instance is recorded as exited broadcasts (WaitExited
+//       cannot miss an exit, also when the backoff gives up)
 //   T1  failed, wanted and retry configured implies a retry timer is armed (unless the backoff said stop: bstop)
 //   SetContext$1 / retry callback exit: a succeeded routine is not started again, a failed one only with restart
 // By induction along pred, closed(ch) implies that the instance ch and every instance started before it
@@ -76,6 +78,7 @@ package routine
 //@   inv S2[C05]: scof(this) != nil && this.routine == nil ==> cast(scof(this), StateRoutineContainer).stateRoutine == nil || cast(scof(this), StateRoutineContainer).s == zero()
 //@   inv W2[C14]: forall rr: *runningRoutine {rr.r} :: rr.r == this && rr.ctx != nil && !rr.exited ==> rr.err == nil && !rr.success
 //@   inv W3[C14]: forall rr: *runningRoutine {rr.r} :: rr.r == this && rr.deferRetry != nil ==> this.retryBo != nil && rr.exited && !rr.success
+//@   trans TE[C14]: this.routine != nil && this.routine == old(this.routine) && this.routine.exited && !old(this.routine.exited) ==> (old(this.bcast.ch) != nil ==> closed(old(this.bcast.ch)))
 //@   inv T1[C14]: this.retryBo != nil && this.routine != nil && this.ctx != nil && this.routine.exited && !this.routine.success && !bstop(this.routine) ==> this.routine.deferRetry != nil
 //@   stable SB: this.routine != nil ==> !bstop(this.routine)
 //@   inv H3[C04]: this.routine == nil ==> this.prevExitedCh == this.lastCh || (this.prevExitedCh == nil && (this.lastCh == nil || closed(this.lastCh)))
@@ -187,6 +190,7 @@ package routine
 //@   opt holds = bcast.mtx
 //@   opt frame = skip
 //@   requires k != nil && broadcast != nil
+//@   ensures noexit[C14]: k.routine == old(k.routine) && (k.routine != nil && k.routine.exited ==> old(k.routine.exited))
 //
 //@ func (*RoutineContainer).WaitExited
 //@   props C14
